@@ -88,3 +88,32 @@ Definition parts_of_kw (k : kwargs) : option rparts :=
                | None => None
                end))
   end.
+
+(* ------------------------------------------------------------------------------------------ *)
+(* RecurringPattern.__init__: the shapes its arguments may take (the readings are listed in
+   harness/translate/srcspecs_rec.py).  DT = an aware-or-naive datetime object, DS = a str.     *)
+
+(* start: an int, a datetime with a tzinfo, a datetime without *)
+Inductive start_arg (DT : Type) := StInt (z : Z) | StAware (dt : DT) | StNaive (dt : DT).
+Arguments StInt {DT} z.
+Arguments StAware {DT} dt.
+Arguments StNaive {DT} dt.
+
+(* day: one str, or a list of str *)
+Inductive dayarg (DS : Type) := DayStr (s : DS) | DayList (l : list DS).
+Arguments DayStr {DS} s.
+Arguments DayList {DS} l.
+
+(* day_of_month, month, bysetpos, ...: one int, or a list of ints *)
+Inductive intarg := IOne (z : Z) | IList (l : list Z).
+
+(* wkst: a dateutil weekday object, a str, an int *)
+Inductive wkarg (DS : Type) := WaObj (w : Z) | WaStr (s : DS) | WaInt (z : Z).
+Arguments WaObj {DS} w.
+Arguments WaStr {DS} s.
+Arguments WaInt {DS} z.
+
+(* dateutil: weekday.__call__(n) — "Can't create weekday with n==0" (ValueError), else the same
+   weekday with that n *)
+Definition wd_call (wd : Z * option Z) (n : Z) : option (Z * option Z) :=
+  if n =? 0 then None else Some (fst wd, Some n).
